@@ -35,6 +35,8 @@ struct Progress {
 }
 
 struct SyncVecWr {
+    #[cfg(jubako_verif)]
+    serial: usize,
     _arc: Arc<Vec<u8>>,
     data: ManuallyDrop<Vec<u8>>,
     total_size: usize,
@@ -44,6 +46,8 @@ struct SyncVecWr {
 unsafe impl Send for SyncVecWr {}
 
 struct SyncVecRd {
+    #[cfg(jubako_verif)]
+    serial: usize,
     _arc: Arc<Vec<u8>>,
     buffer: *const u8,
     total_size: usize,
@@ -59,14 +63,19 @@ impl SyncVecRd {
     pub fn wait_for(&self, end: usize) -> std::io::Result<usize> {
         let (lock, cvar) = &*self.decoded;
         #[cfg(jubako_verif)]
-        crate::verif_api::event(crate::verif_api::ev::WAIT_BEGIN, self.buffer as usize, end, 0);
+        crate::verif_api::event(
+            crate::verif_api::ev::WAIT_BEGIN,
+            self.serial,
+            end,
+            self.total_size,
+        );
         let progress = cvar
             .wait_while(lock.lock().unwrap(), |p| p.decoded < end && !p.failed)
             .unwrap();
         #[cfg(jubako_verif)]
         crate::verif_api::event(
             crate::verif_api::ev::WAIT_END,
-            self.buffer as usize,
+            self.serial,
             end,
             progress.decoded * 2 + progress.failed as usize,
         );
@@ -80,8 +89,16 @@ impl SyncVecRd {
     }
 
     #[inline]
+    #[cfg_attr(jubako_verif, allow(unreachable_code))]
     pub fn current_size(&self) -> usize {
         let (lock, _cvar) = &*self.decoded;
+        #[cfg(jubako_verif)]
+        {
+            // Same read, with the event emitted while the mutex is held.
+            let progress = lock.lock().unwrap();
+            crate::verif_api::event(crate::verif_api::ev::SLICE, self.serial, progress.decoded, 0);
+            return progress.decoded;
+        }
         lock.lock().unwrap().decoded
     }
 
@@ -93,8 +110,6 @@ impl SyncVecRd {
     #[inline]
     fn slice(&self) -> &[u8] {
         let size = self.current_size();
-        #[cfg(jubako_verif)]
-        crate::verif_api::event(crate::verif_api::ev::SLICE, self.buffer as usize, size, 0);
         unsafe { std::slice::from_raw_parts(self.buffer, size) }
     }
 }
@@ -103,13 +118,19 @@ fn create_sync_vec(size: usize) -> (SyncVecWr, SyncVecRd) {
     let buffer = Arc::new(Vec::with_capacity(size));
     let decoded = Arc::new((Mutex::new(Progress::default()), Condvar::new()));
     let buffer_ptr = buffer.as_ptr();
+    #[cfg(jubako_verif)]
+    let serial = crate::verif_api::next_serial();
     let rd = SyncVecRd {
+        #[cfg(jubako_verif)]
+        serial,
         _arc: Arc::clone(&buffer),
         buffer: buffer_ptr,
         total_size: size,
         decoded: Arc::clone(&decoded),
     };
     let rw = SyncVecWr {
+        #[cfg(jubako_verif)]
+        serial,
         _arc: buffer,
         data: ManuallyDrop::new(unsafe { Vec::from_raw_parts(buffer_ptr as *mut u8, 0, size) }),
         total_size: size,
@@ -142,9 +163,14 @@ fn decode_to_end<T: Read + Send>(
             .take(size as u64)
             .read_to_end(&mut buffer.data);
         #[cfg(jubako_verif)]
-        let id = buffer._arc.as_ptr() as usize;
+        let id = buffer.serial;
         #[cfg(jubako_verif)]
-        crate::verif_api::event(crate::verif_api::ev::CHUNK, id, buffer.data.len(), 0);
+        crate::verif_api::event(
+            crate::verif_api::ev::CHUNK,
+            id,
+            buffer.data.len(),
+            total_size,
+        );
         let (lock, cvar) = &*buffer.decoded;
         let mut progress = lock.lock().unwrap();
         match read {
